@@ -68,6 +68,9 @@ func TestWorker(t *testing.T) {
 	if err != nil {
 		panic(err)
 	}
+	if in, ok := prop.(interface{ Init(*testing.T) }); ok {
+		in.Init(t)
+	}
 	start := time.Now()
 	if job.Replay != "" {
 		runReplay(t, prop, &job, res)
